@@ -119,55 +119,56 @@ def check(ctx, run):
     given = [Obj(W.PRIMARY, "hA"), Obj(W.PRIMARY, "hB")]
     for nt in (1, 3):
         res = [r for r in interp.explore(price, [W.option()], dict(n_paths=W.integer("n_paths"), n_times=nt, init_state=Sym("init_state"), hedge=given), self_obj=hh) if not r["raises"]]
-        if len(res) != 1:
-            raise AnalysisError("Hedger.price: expected one path")
-        r = res[0]
-        ev = events_of(r, prog)
-        cash_calls = [e for e in r["events"] if e["kind"] == "opaque_call" and isinstance(e["callee"], Sym) and e["callee"].name == "criterion.cash"]
-        s = " ".join(k for k, _ in ev if k in ("grad{", "}", "simulate", "portfolio"))
+        if not res:
+            raise AnalysisError("Hedger.price: no analysable path")
         problems = []
-        if not re.fullmatch(r"grad\{ (simulate portfolio ){%d}\}" % nt, s):
-            problems.append(f"trace '{s}'")
-        modes = [getattr(c_, "attrs", {}).get("arg") for k, e in ev if k == "grad{" for c_ in e["ctx"]]
-        if modes != [False]:
-            problems.append(f"grad mode {modes} (default must be off)")
-        if len(cash_calls) != nt:
-            problems.append(f"{len(cash_calls)} cash evaluations")
-        for k, e in ev:
-            if k == "simulate" and e.get("fn", "").endswith("_get_price"):
-                kw = dict(e["kwargs"])
-                for kk, vv in zip(("n_paths", "init_state"), e["args"]):
-                    kw[kk] = vv
-                if not (kw.get("n_paths") == W.integer("n_paths") and kw.get("init_state") == Sym("init_state")):
-                    problems.append(f"simulate({', '.join(f'{a}={b}' for a, b in kw.items())}) ignores the requested n_paths / init_state")
-            if k == "portfolio":
-                kw = dict(e["kwargs"])
-                for kk, vv in zip(("derivative", "hedge"), e["args"]):
-                    kw[kk] = vv
-                if kw.get("hedge") is not given:
-                    problems.append("compute_portfolio does not receive the requested hedge")
-        for e in cash_calls:
-            tgt = e["kwargs"].get("target", e["args"][1] if len(e["args"]) > 1 else None)
-            inp = e["args"][0] if e["args"] else e["kwargs"].get("input")
-            # cash(P, target=Z) and cash(P - Z) are the same request: the effective P&L is input - target
-            if tgt is None and isinstance(inp, Op) and inp.op == "sub":
-                inp, tgt = inp.args
-            is_payoff = lambda q_: q_ is not None and any(isinstance(q, Op) and q.op == "abstract" and "payoff_fn" in str(q.args[0]) for q in walk(q_))
-            has_model = lambda q_: isinstance(q_, Op) and any(isinstance(q, Op) and q.op == "call" and str(q.args[0]) == "model" for q in walk(q_))
-            if not is_payoff(tgt) or has_model(tgt):
-                problems.append("the P&L handed to cash() is not portfolio minus derivative.payoff()")
-            if not has_model(inp) or is_payoff(inp):
-                problems.append("input is not the portfolio value")
-        v = r["value"]
-        core = v
-        if nt > 1:
-            if not (isinstance(v, Op) and v.op == "mean"):
-                problems.append("n_times evaluations are not averaged")
-            else:
-                st = v.args[0]
-                core = st.args[0][0] if isinstance(st, Op) and st.op == "stack" else v
-        if not (isinstance(core, Op) and core.op == "neg" and isinstance(core.args[0], Op) and core.args[0].op == "call" and str(core.args[0].args[0]) == "criterion.cash"):
-            problems.append(f"value is {str(core)[:60]}, expected -criterion.cash(...)")
+        for r in res:  # every path through helpers that branch (training flag, cost shortcuts, ...) must price the same way
+            ev = events_of(r, prog)
+            cash_calls = [e for e in r["events"] if e["kind"] == "opaque_call" and isinstance(e["callee"], Sym) and e["callee"].name == "criterion.cash"]
+            s = " ".join(k for k, _ in ev if k in ("grad{", "}", "simulate", "portfolio"))
+            if not re.fullmatch(r"grad\{ (simulate portfolio ){%d}\}" % nt, s):
+                problems.append(f"trace '{s}'")
+            modes = [getattr(c_, "attrs", {}).get("arg") for k, e in ev if k == "grad{" for c_ in e["ctx"]]
+            if modes != [False]:
+                problems.append(f"grad mode {modes} (default must be off)")
+            if len(cash_calls) != nt:
+                problems.append(f"{len(cash_calls)} cash evaluations")
+            for k, e in ev:
+                if k == "simulate" and e.get("fn", "").endswith("_get_price"):
+                    kw = dict(e["kwargs"])
+                    for kk, vv in zip(("n_paths", "init_state"), e["args"]):
+                        kw[kk] = vv
+                    if not (kw.get("n_paths") == W.integer("n_paths") and kw.get("init_state") == Sym("init_state")):
+                        problems.append(f"simulate({', '.join(f'{a}={b}' for a, b in kw.items())}) ignores the requested n_paths / init_state")
+                if k == "portfolio":
+                    kw = dict(e["kwargs"])
+                    for kk, vv in zip(("derivative", "hedge"), e["args"]):
+                        kw[kk] = vv
+                    if kw.get("hedge") is not given:
+                        problems.append("compute_portfolio does not receive the requested hedge")
+            for e in cash_calls:
+                tgt = e["kwargs"].get("target", e["args"][1] if len(e["args"]) > 1 else None)
+                inp = e["args"][0] if e["args"] else e["kwargs"].get("input")
+                # cash(P, target=Z) and cash(P - Z) are the same request: the effective P&L is input - target
+                if tgt is None and isinstance(inp, Op) and inp.op == "sub":
+                    inp, tgt = inp.args
+                is_payoff = lambda q_: q_ is not None and any(isinstance(q, Op) and q.op == "abstract" and "payoff_fn" in str(q.args[0]) for q in walk(q_))
+                has_model = lambda q_: isinstance(q_, Op) and any(isinstance(q, Op) and q.op == "call" and str(q.args[0]) == "model" for q in walk(q_))
+                if not is_payoff(tgt) or has_model(tgt):
+                    problems.append("the P&L handed to cash() is not portfolio minus derivative.payoff()")
+                if not has_model(inp) or is_payoff(inp):
+                    problems.append("input is not the portfolio value")
+            v = r["value"]
+            core = v
+            if nt > 1:
+                if not (isinstance(v, Op) and v.op == "mean"):
+                    problems.append("n_times evaluations are not averaged")
+                else:
+                    st = v.args[0]
+                    core = st.args[0][0] if isinstance(st, Op) and st.op == "stack" else v
+            if not (isinstance(core, Op) and core.op == "neg" and isinstance(core.args[0], Op) and core.args[0].op == "call" and str(core.args[0].args[0]) == "criterion.cash"):
+                problems.append(f"value is {str(core)[:60]}, expected -criterion.cash(...)")
+        problems = sorted(set(problems))
         ok = not problems
         run.oblige("C06.R3", f"Hedger.price[n_times={nt}]", ok, "; ".join(problems) or s, sample={"rule": "C06.R3", "n_times": nt, "trace": s})
         if not ok:
